@@ -42,7 +42,7 @@ class FV(object):
         s = _as_poly(s)
         out = {}
         for p, inner in self.terms.items():
-            if p is not None and not s.is_real():
+            if p is not None and not s.is_real() and FV.value_kind != 'c':
                 raise AnalysisError('complex scaling of a projected function value')
             out[p] = {k: c * s for k, c in inner.items()}
         return FV(out)
@@ -50,6 +50,8 @@ class FV(object):
     def __add__(self, o):
         if isinstance(o, (int, Fr, Poly)) and _as_poly(o).is_zero():
             return self
+        if type(o).__name__ == '_Border':
+            return o                      # a convolution window that left the array: absorbing
         if not isinstance(o, FV):
             raise AnalysisError('adding a number to a function value (affine stencil): %r' % (o,))
         out = {p: dict(inner) for p, inner in self.terms.items()}
@@ -66,6 +68,8 @@ class FV(object):
     def __sub__(self, o):
         if isinstance(o, (int, Fr, Poly)) and _as_poly(o).is_zero():
             return self
+        if type(o).__name__ == '_Border':
+            return o
         if not isinstance(o, FV):
             raise AnalysisError('subtracting a number from a function value: %r' % (o,))
         return self + (-o)
@@ -247,10 +251,14 @@ class StencilRunner(object):
 
 
 # ------------------------------------------------------------------ Taylor signatures
-def taylor_signature(fv, hsyms, dim, max_total, min_total=0):
+def taylor_signature(fv, hsyms, dim, max_total, min_total=0, valued=None):
     """{alpha (tuple, len = max(dim,1)): Poly with real coefficients in the h symbols}
     such that   value = sum_alpha sig[alpha] * D^alpha f(x) / alpha!   (formal Taylor series, f real analytic,
-    x and h real).  Only |alpha| in [min_total, max_total] is returned."""
+    x and h real).  Only |alpha| in [min_total, max_total] is returned.
+
+    valued = 'u' / 'v': f = u + i v is complex *valued* with u, v real analytic and every offset real (real-step
+    methods); the value is sum sigU[alpha] D^alpha u / alpha! + sum sigV[alpha] D^alpha v / alpha!.  'u' returns sigU,
+    'v' returns sigV / i, so both are to be compared with the signature expected for a real valued function."""
     if not isinstance(fv, FV):
         if isinstance(fv, (int, Fr, Poly)) and _as_poly(fv).is_zero():
             return {}
@@ -292,6 +300,16 @@ def taylor_signature(fv, hsyms, dim, max_total, min_total=0):
                     continue
                 if acc.has_j():
                     raise AnalysisError('bicomplex coefficient outside a Bicomplex component')
+                if valued is not None:
+                    if proj is None:
+                        val = acc
+                    elif proj == 're':
+                        val = acc if valued == 'u' else Poly.const(0)
+                    else:
+                        val = acc * Poly.const(Z8.I).inv() if valued == 'v' else Poly.const(0)
+                    if not val.is_zero():
+                        sig[alpha] = sig.get(alpha, Poly.const(0)) + val
+                    continue
                 if proj is None:
                     if not acc.is_real():
                         raise AnalysisError('difference quotient returns a complex combination without projection')
